@@ -47,6 +47,7 @@ struct Scn
 	Neg neg; std::vector<int> cuts; int spacing_ms = 1; int pattern = 0; // payload: 0 none, 1 one byte each way, 2 3000 bytes, 3 200 kB, 4 interleaved small writes
 	bytes override_stream; bool has_override = false; bool eof_after = false; // malformed families: send exactly these bytes (then optionally close)
 	int udp_case = -1; bytes udp_dgram; // F3
+	int pred_close_us = -1; // >= 0: a predecessor client performs the same negotiation and hangs up this long after starting to connect; the client under test starts at 300 ms
 	std::string label;
 };
 
@@ -59,7 +60,7 @@ Res run_scn(Scn const& sc)
 	for (int l : { 1, 3, 4, 255 }) w.hosts[name_of_len(l)] = World::Host{ { addr("10.0.1.1") }, error_code(), ms(5) };
 	w.on_build = [](World& ww, sim::simulation&) { auto q = ww.queue(0, ms(1), 0); ww.chan = [q](ip::address, ip::address) { return World::hops_t{ q }; }; };
 	sim::simulation sim(w);
-	asio::io_context nC(sim, addr("10.0.0.1")), nC2(sim, addr("10.0.0.2")), nP(sim, addr("10.0.2.1")), nT(sim, addr("10.0.1.1")), nU(sim, addr("10.0.3.1"));
+	asio::io_context nC(sim, addr("10.0.0.1")), nC2(sim, addr("10.0.0.2")), nC3(sim, addr("10.0.0.3")), nP(sim, addr("10.0.2.1")), nT(sim, addr("10.0.1.1")), nU(sim, addr("10.0.3.1"));
 	std::unique_ptr<sim::socks_server> srv(new sim::socks_server(nP, 1080, sc.neg.ver));
 	Neg const& n = sc.neg;
 	// ---- target: TCP server on 9000 (records, and sends its own pattern once something arrives or at once for BIND peers), UDP echo on 9500
@@ -129,7 +130,15 @@ Res run_scn(Scn const& sc)
 		reader(); }); };
 	send_next = [&]() { if (next_piece >= pieces.size()) { if (sc.eof_after) { error_code ig; cli.close(ig); } return; } bytes const& pc = pieces[next_piece++]; if (pc.empty()) { send_next(); return; }
 		asio::async_write(cli, asio::buffer(pc), [&](error_code const& ec, std::size_t) { if (ec) return; if (sc.spacing_ms == 0) send_next(); else { gap.expires_after(ms(sc.spacing_ms)); gap.async_wait([&](error_code const& e2) { if (!e2) send_next(); }); } }); };
-	cli.async_connect(ip::tcp::endpoint(addr("10.0.2.1"), 1080), [&](error_code const& ec) { if (ec) { fail("connect: client to proxy: " + ecs(ec)); return; } connected = true; reader(); send_next(); });
+	auto start_main = [&]() { cli.async_connect(ip::tcp::endpoint(addr("10.0.2.1"), 1080), [&](error_code const& ec) { if (ec) { fail("connect: client to proxy: " + ecs(ec)); return; } connected = true; reader(); send_next(); }); };
+	// ---- predecessor: same negotiation, then an early hang-up; must leave nothing behind that the next client can notice ----
+	ip::tcp::socket pre(nC3); asio::high_resolution_timer pret(nC3), maint(nC); bytes pre_got; std::vector<char> preb(4096); bytes prestream; for (auto& m : msgs) prestream += m;
+	std::function<void()> preread = [&]() { pre.async_read_some(asio::buffer(preb), [&](error_code const& ec, std::size_t k) { if (ec) return; pre_got.append(preb.data(), k); preread(); }); };
+	if (sc.pred_close_us >= 0) {
+		pre.async_connect(ip::tcp::endpoint(addr("10.0.2.1"), 1080), [&](error_code const& ec) { if (ec) return; preread(); asio::async_write(pre, asio::buffer(prestream), [](error_code const&, std::size_t) {}); });
+		pret.expires_after(std::chrono::microseconds(sc.pred_close_us)); pret.async_wait([&](error_code const&) { error_code ig; pre.close(ig); });
+		maint.expires_after(ms(300)); maint.async_wait([&](error_code const&) { start_main(); });
+	} else start_main();
 	// ---- bystander: a plain v-matching CONNECT relay through the same proxy, started a little later ----
 	ip::tcp::socket by(nC2); bytes by_got; std::vector<char> byb(8192); asio::high_resolution_timer byt(nC2); bool with_by = sc.has_override || sc.udp_case >= 3;
 	std::function<void()> byread = [&]() { by.async_read_some(asio::buffer(byb), [&](error_code const& ec, std::size_t k) { if (ec) return; by_got.append(byb.data(), k); byread(); }); };
@@ -194,9 +203,14 @@ Res run_scn(Scn const& sc)
 		}
 		// counters: exactly one well-formed request of this command
 		std::array<int, 3> wantc{ { 0, 0, 0 } }; wantc[size_t(n.cmd - 1)] = 1; if (with_by) wantc[0] += 1; // the bystander's CONNECT
+		if (sc.pred_close_us >= 0) {
+			// the predecessor's request counts if it was received; it certainly was when the predecessor saw a reply to it
+			bool replied = pre_got.size() >= (n.ver == 4 ? 8u : 12u); std::array<int, 3> alt = wantc; alt[size_t(n.cmd - 1)] += 1;
+			if (replied || R.counts == alt) wantc = alt;
+		}
 		if (R.counts != wantc) fail(fmt("cmd_counts: counters are {%d,%d,%d}, expected {%d,%d,%d}", R.counts[0], R.counts[1], R.counts[2], wantc[0], wantc[1], wantc[2]));
 	}
-	error_code ig; cli.close(ig); by.close(ig); bindpeer.close(ig); cudp.close(ig); tudp.cancel(ig); uudp.close(ig);
+	error_code ig; cli.close(ig); by.close(ig); pre.close(ig); bindpeer.close(ig); cudp.close(ig); tudp.cancel(ig); uudp.close(ig);
 	try { sim.run(); } catch (std::exception const& e) { fail(std::string("exception: '") + e.what() + "' came out of run() during tear-down"); }
 	srv->stop(); for (auto& c : tconns) if (c->s) c->s->close(ig); tacc.close(ig); tudp.close(ig);
 	try { sim.run(); } catch (std::exception const&) {}
@@ -222,7 +236,7 @@ struct SocksEngine : Engine
 	{
 		if (!ctx.next_case()) return;
 		Case c; c.set("u", (long long)u).set("fam", fam).set_ints("cuts", s.cuts).set("pat", s.pattern).set("ov", s.has_override ? hex(s.override_stream.size() > 600 ? s.override_stream.substr(0, 40) : s.override_stream) : "").set("ovlen", (long long)s.override_stream.size())
-			.set("eof", s.eof_after ? 1 : 0).set("uc", s.udp_case).set("ud", hex(s.udp_dgram)).set("label", s.label);
+			.set("eof", s.eof_after ? 1 : 0).set("pred", s.pred_close_us).set("uc", s.udp_case).set("ud", hex(s.udp_dgram)).set("label", s.label);
 		ctx.begin(c);
 		Res r = run_scn(s);
 		ctx.R.transitions += r.transitions; ctx.state(c.flat()); ctx.outcome(fmt("%llx/%llx/%d%d%d/%d", (unsigned long long)fnv(r.client_got), (unsigned long long)fnv(r.target_got), r.counts[0], r.counts[1], r.counts[2], int(r.eof)));
@@ -238,6 +252,7 @@ struct SocksEngine : Engine
 		if (u < negs.size()) {
 			Neg const& n = negs[size_t(u)]; size_t len = 0; for (auto& m : neg_msgs(n)) len += m.size();
 			for (int pat : { 0, 1, 2, 3, 4 }) { if (n.cmd == UDPA && pat) continue; if (n.tgt != T_OK && pat > 1) continue; Scn s; s.neg = n; s.pattern = pat; s.label = "no cut"; if (n.cmd == UDPA) { s.udp_case = 0; s.udp_dgram = B({ 0, 0, 0, 1, 10, 0, 1, 1, 9500 >> 8, 9500 & 0xff }) + "ping-payload"; } one(ctx, u, s, "valid"); }
+			for (int k = 1; k <= (ctx.args.thorough() ? 60 : 30); ++k) { Scn s; s.neg = n; s.pattern = n.cmd == UDPA || n.tgt != T_OK ? 0 : 1; s.pred_close_us = k * (ctx.args.thorough() ? 250 : 500); s.label = fmt("after a predecessor that hung up %d us into the same negotiation", s.pred_close_us); if (n.cmd == UDPA) { s.udp_case = 0; s.udp_dgram = B({ 0, 0, 0, 1, 10, 0, 1, 1, 9500 >> 8, 9500 & 0xff }) + "ping-payload"; } one(ctx, u, s, "valid"); }
 			for (size_t c = 1; c < len; ++c) for (int sp : { 1, 20 }) { Scn s; s.neg = n; s.cuts = { int(c) }; s.spacing_ms = sp; s.pattern = n.tgt == T_OK ? 2 : 0; s.label = fmt("cut@%zu", c); if (n.cmd == UDPA) { s.pattern = 0; s.udp_case = 0; s.udp_dgram = B({ 0, 0, 0, 1, 10, 0, 1, 1, 9500 >> 8, 9500 & 0xff }) + "ping-payload"; } if (len > 60 && c % 9 && c > 12) continue; one(ctx, u, s, "valid"); }
 			if (ctx.args.thorough()) for (size_t c1 = 1; c1 < std::min<size_t>(len, 24); ++c1) for (size_t c2 = c1 + 1; c2 < std::min<size_t>(len, 24); ++c2) { Scn s; s.neg = n; s.cuts = { int(c1), int(c2) }; s.pattern = n.tgt == T_OK && n.cmd != UDPA ? 1 : 0; s.label = fmt("cuts@%zu,%zu", c1, c2); if (n.cmd == UDPA) continue; one(ctx, u, s, "valid"); }
 			return;
@@ -274,7 +289,7 @@ struct SocksEngine : Engine
 		std::fprintf(stdout, "replaying %s\n", c.str("label").c_str());
 		Scn s; uint64_t u = uint64_t(c.num("u")); std::string fam = c.str("fam");
 		if (u < negs.size()) s.neg = negs[size_t(u)]; else s.neg = bases.at(size_t((u - negs.size()) / 4));
-		s.cuts = c.ints("cuts"); s.pattern = int(c.num("pat")); s.eof_after = c.num("eof") != 0; s.udp_case = int(c.num("uc", -1)); s.udp_dgram = unhex(c.str("ud")); s.label = c.str("label");
+		s.cuts = c.ints("cuts"); s.pattern = int(c.num("pat")); s.eof_after = c.num("eof") != 0; s.udp_case = int(c.num("uc", -1)); s.pred_close_us = int(c.num("pred", -1)); s.udp_dgram = unhex(c.str("ud")); s.label = c.str("label");
 		if (fam != "valid" && fam.compare(0, 3, "udp") != 0) {
 			s.has_override = true; std::vector<bytes> msgs = neg_msgs(s.neg); bytes stream; for (auto& m : msgs) stream += m;
 			size_t ovlen = size_t(c.num("ovlen")); std::string lab = s.label; unsigned i = 0, b = 0; size_t l = 0;
